@@ -281,3 +281,42 @@ pub fn run_one(args: &Args) -> i32 {
     }
     0
 }
+
+/// (A, B) pairs for C08's differential check: A ends at a chunk boundary; texts that use primitives
+/// whose effect is deliberately not part of a checkpoint (\endinput ends the *file*, \read consumes
+/// the harness terminal, \input/\openin depend on where a file ends) are left out.
+pub fn gen_pairs(seed: u64, n: usize) -> Vec<(String, String)> {
+    let mut vocab: Vec<String> = vmh::built_ins().keys().map(|k| k.to_string())
+        .filter(|k| !k.contains('\u{0}') && !["newIntArray", "endinput", "read", "input", "tracingmacros"].contains(&k.as_str())).collect();
+    vocab.sort();
+    let mut rng = Rng::new(seed ^ 0xC08);
+    let mut v = vec![];
+    while v.len() < n {
+        let na = 1 + rng.below(5) as usize;
+        let nb = 1 + rng.below(4) as usize;
+        // A is biased towards leaving state behind: open groups / conditionals, definitions, errors
+        let mut a = String::new();
+        for _ in 0..na {
+            match rng.below(6) {
+                0 => a.push('{'),
+                1 => a.push_str(pick(&mut rng, &["\\iftrue ", "\\iffalse \\else ", "\\ifcase 1 \\or ", "\\ifnum1<2 ", "\\ifodd 3 ", "\\ifcase 5 a\\else "])),
+                _ => a.push_str(&chunk(&mut rng, &vocab, 2)),
+            }
+        }
+        let mut b = String::new();
+        for _ in 0..nb {
+            match rng.below(6) {
+                0 => b.push('}'),
+                1 => b.push_str(pick(&mut rng, &["\\fi ", "\\else x\\fi ", "\\or y\\fi ", "\\fi\\fi "])),
+                _ => b.push_str(&chunk(&mut rng, &vocab, 2)),
+            }
+        }
+        b.push_str("[\\the\\count1][\\the\\dimen1][\\the\\catcode`a][\\ma][\\xa]");
+        let all = format!("{a}{b}");
+        if ["endinput", "\\read", "\\input", "openin", "tracingmacros", "jobname"].iter().any(|w| all.contains(w)) {
+            continue;
+        }
+        v.push((a, b));
+    }
+    v
+}
